@@ -648,6 +648,59 @@ def model_outcome(model, s):
     return ("error", ans[:200])
 
 
+def antlr_outcome(s):
+    """what the ANTLR lexer and the generated recogniser do with `s`, without the hand-written listener:
+    (token types or None when the lexer reports an error, 'accept' | 'syntax' | 'lex' | 'other:<exception>')"""
+    from antlr4 import InputStream, CommonTokenStream
+    from tucan.parser.tucanLexer import tucanLexer
+    from tucan.parser.parser import LexerErrorListener, _prepare_parser, TucanParserException
+    types = None
+    try:
+        lexer = tucanLexer(InputStream(s))
+        lexer.removeErrorListeners()
+        lexer.addErrorListener(LexerErrorListener())
+        ts = CommonTokenStream(lexer)
+        ts.fill()
+        types = [t.type for t in ts.tokens if t.type != -1]
+    except TucanParserException:
+        types = None
+    except RecursionError:
+        return None, "other:RecursionError"
+    except Exception as e:
+        return None, "other:" + type(e).__name__
+    if types is None:
+        return None, "lex"
+    try:
+        _prepare_parser(s).tucan()
+        return types, "accept"
+    except TucanParserException:
+        return types, "syntax"
+    except RecursionError:
+        return types, "other:RecursionError"
+    except Exception as e:
+        return types, "other:" + type(e).__name__
+
+
+def k12(run, model, s, kind):
+    c = run.comp("K12")
+    c["cases"] += 1
+    ans = model.q("antlr " + hx(s))
+    mcls, _, mtypes = ans.partition(" ")
+    itypes, icls = antlr_outcome(s)
+    run.count("K12_outcome:" + icls.split(":")[0])
+    problem = None
+    if icls.startswith("other"):
+        problem = "ANTLR raised %s" % icls
+    elif icls != mcls:
+        problem = "recogniser outcome: ANTLR %s, translated model %s" % (icls, mcls)
+    elif itypes is not None and mtypes not in ("-", "?") and ",".join(map(str, itypes)) != mtypes:
+        problem = "token types differ: ANTLR lexer %s, model lexer + literal table %s" % (itypes[:20], mtypes[:80])
+    elif itypes is not None and mtypes in ("-", "?"):
+        problem = "ANTLR lexer tokenises, model does not (%s)" % mtypes
+    if problem:
+        c["diffs"].append({"what": problem, "case": {"s": s, "kind": kind}})
+
+
 def show(o):
     return json.dumps(o, default=str)[:400]
 
@@ -754,6 +807,9 @@ class Checker:
         else:
             if self.book:
                 run.count("model_not_asked")
+        # ---------------- K12: the real ANTLR lexer + generated recogniser against their translation (gen/Antlr.v run by AntlrExec.v)
+        if self.model is not None and model_can_read(s) and fixed_expect is None and len(s) <= 4000:
+            k12(run, self.model, s, kind)
         # ---------------- books
         if self.book:
             cls = mcls if mcls not in (None, "ok") else ("ref:" + ref[1] if ref and ref[0] == "reject" else "impl-only")
@@ -1146,11 +1202,12 @@ def shrink(s, still_fails):
 PARSE_ASSUME = ["the Gallina reference reader (coq/Model/Parse.v) computes what the ANTLR recogniser + listener compute: checked by K8 on this run's strings, assumed beyond",
                 "ANTLR runtime and generated tucanLexer.py / tucanParser.py are not modelled; they are only observed through graph_from_tucan"]
 SPECS = {
-    "C10": dict(fn=c10, level="proof", components=["K8"], assumptions=PARSE_ASSUME,
+    "C10": dict(fn=c10, level="proof", components=["K8", "K12"], assumptions=PARSE_ASSUME,
                 rule="grammar-directed sentences over all 118 symbols (both Hill shapes, prefix traps, counts none/2/9/10/11/100, empty formula, empty attribute part, split blocks) "
                      "+ single-token insertions/deletions/replacements/transpositions (exhaustive on a small sentence, sampled on many) + raw-character mutants (space, newline, lowercase, "
                      "unicode digits, NUL, BOM) + semantic near-misses (self loop, index 0 / n+1, duplicate attribute, mass=0, count 1/01, Hill order, missing/extra slash, garbage) "
-                     "+ 5000-digit numerals; every string read by the implementation, by a Python reference reader written from tucan.ebnf (falsifier) and by the Coq reference (K8). "
+                     "+ 5000-digit numerals; every string read by the implementation, by a Python reference reader written from tucan.ebnf (falsifier) and by the Coq reference (K8); "
+                     "K12: the ANTLR lexer's token types and the generated recogniser's verdict (no listener) against the translated recogniser gen/Antlr.v run by AntlrExec.v. "
                      "non-trivial = accepted string with >= 3 atoms and >= 1 tuple (once each) or rejected string, once per distinct (mutation kind, error class)"),
     "C11": dict(fn=c11, level="proof", components=["K8"], assumptions=PARSE_ASSUME,
                 rule="canonical strings of gens.standard_stream + generated non-canonical sentences; per string: idempotence of norm and respellings (tuple order / orientation / repetition, "
